@@ -398,7 +398,8 @@ FUNCTIONS = list(_s.FUNCTIONS) + [
         assigns this->bytesRead, this->chunk.size, this->chunk.bytesRead
         ensures this->bytesRead == 0 && this->chunk.size == -1 && this->chunk.bytesRead == 0"""},
     {'q': 'Pistache::Http::Private::ParserBase::reset', 'contract': """
-        requires RP_PRE_ANY(g_rp) && PTR_EQ(this, PB(g_rp))
+        # class invariant: currentStep indexes allSteps (established by the constructor, kept by parse() and reset())
+        requires RP_PRE_ANY(g_rp) && PTR_EQ(this, PB(g_rp)) && this->currentStep <= 2
         assigns SB(&this->buffer).base, SB(&this->buffer).pos, SB(&this->buffer).len, this->buffer.bytes, this->currentStep,
                 g_body->bytesRead, g_body->chunk.size, g_body->chunk.bytesRead
         # C04: nothing of the abandoned message survives in the parser base: buffer, cursor, step index, body-framing progress
@@ -438,7 +439,7 @@ FUNCTIONS = list(_s.FUNCTIONS) + [
         invariant CHUNK_INV(&g_body->chunk) && BODYSTEP_INV(g_body) && g_rp->request.vs_base_Message.body_.size <= MAXLEN && g_app_total == 0 && g_app_calls == 0
         decreases 3 - this->currentStep"""], 'hoist_all': True},
     {'q': 'Pistache::Http::Private::ParserImpl::reset', 'class_targ': 'Request', 'contract': """
-        requires RP_PRE_ANY(this) && PTR_EQ(g_rp, this)
+        requires RP_PRE_ANY(this) && PTR_EQ(g_rp, this) && PB(this)->currentStep <= 2
         assigns SB(&PB(this)->buffer).base, SB(&PB(this)->buffer).pos, SB(&PB(this)->buffer).len, PB(this)->buffer.bytes, PB(this)->currentStep,
                 g_body->bytesRead, g_body->chunk.size, g_body->chunk.bytesRead, this->request, this->time_, g_now
         # C04: after reset the parser is in the state of a freshly constructed one; the request is the value-initialised Request
